@@ -13,7 +13,6 @@ import Mathlib.Data.Finset.Image
 import Mathlib.Algebra.Order.Field.Basic
 import Mathlib.Algebra.BigOperators.Field
 import Mathlib.Data.Fin.VecNotation
-import Mathlib.Tactic.FinCases
 import Mathlib.Tactic.NormNum.Basic
 
 namespace SLV.C05
@@ -111,10 +110,67 @@ theorem replicate_fin {k : Nat} (c : ℚ) :
     (Vector.replicate k (XQ.fin c : XQ f)) = liftT (fun _ => c) := by
   apply Vector.ext; intro i hi; simp [liftT]
 
+/-! ### `reduce(min).unwrap_or(d)` over a list -/
+
+/-- `reduce(min).unwrap_or(d)` over a list of rationals -/
+def minL (l : List ℚ) (d : ℚ) : ℚ :=
+  match l with
+  | [] => d
+  | a :: as => as.foldl Min.min a
+
+theorem foldl_min_spec (as : List ℚ) (a : ℚ) :
+    as.foldl Min.min a ≤ a ∧ (∀ q ∈ as, as.foldl Min.min a ≤ q) ∧
+      (as.foldl Min.min a = a ∨ as.foldl Min.min a ∈ as) := by
+  induction as generalizing a with
+  | nil => simp
+  | cons b bs ih =>
+    obtain ⟨h1, h2, h3⟩ := ih (min a b)
+    simp only [List.foldl_cons]
+    refine ⟨le_trans h1 (min_le_left _ _), ?_, ?_⟩
+    · intro q hq
+      rcases List.mem_cons.mp hq with e | e
+      · rw [e]; exact le_trans h1 (min_le_right _ _)
+      · exact h2 q e
+    · rcases h3 with e | e
+      · rcases min_choice a b with hc | hc
+        · left; rw [e, hc]
+        · right; rw [e, hc]; simp
+      · right; simp [e]
+
+theorem minL_spec (l : List ℚ) (d : ℚ) :
+    (l = [] ∧ minL l d = d) ∨ (minL l d ∈ l ∧ ∀ q ∈ l, minL l d ≤ q) := by
+  cases l with
+  | nil => left; exact ⟨rfl, rfl⟩
+  | cons a as =>
+    right
+    obtain ⟨h1, h2, h3⟩ := foldl_min_spec as a
+    show as.foldl Min.min a ∈ a :: as ∧ ∀ q ∈ a :: as, as.foldl Min.min a ≤ q
+    constructor
+    · rcases h3 with e | e
+      · rw [e]; simp
+      · simp [e]
+    · intro q hq
+      rcases List.mem_cons.mp hq with e | e
+      · rw [e]; exact h1
+      · exact h2 q e
+
+theorem foldl_min_map_fin (as : List ℚ) (a : ℚ) :
+    (as.map (XQ.fin (f := f))).foldl Scalar.min (XQ.fin a) = XQ.fin (as.foldl Min.min a) := by
+  induction as generalizing a with
+  | nil => rfl
+  | cons b bs ih => simp only [List.map_cons, List.foldl_cons, XQ.min_fin, ih]
+
+theorem reduceL_min_fin (l : List ℚ) (d : ℚ) :
+    Tab.reduceL Scalar.min (l.map (XQ.fin (f := f))) (XQ.fin d) = XQ.fin (minL l d) := by
+  cases l with
+  | nil => rfl
+  | cons a as => exact foldl_min_map_fin as a
+
 /-! ### rational data -/
 
 /-- well-formedness of the rational inputs of an inversion: well-formed conditionals, strictly positive
-    base rates on both domains -/
+    base rate on `X`, base rate on `Y` (zeros allowed: the model skips values of `Y` whose base rate is
+    within ε of zero) -/
 structure InvHyp (cb : Fin n → Fin m → ℚ) (cu : Fin n → ℚ) (ax : Fin n → ℚ) (ay : Fin m → ℚ) :
     Prop where
   hcb : ∀ x y, 0 ≤ cb x y
@@ -122,7 +178,7 @@ structure InvHyp (cb : Fin n → Fin m → ℚ) (cu : Fin n → ℚ) (ax : Fin n
   hcs : ∀ x, ∑ y, cb x y + cu x = 1
   hax0 : ∀ x, 0 < ax x
   hax : ∑ x, ax x = 1
-  hay0 : ∀ y, 0 < ay y
+  hay0 : ∀ y, 0 ≤ ay y
   hay : ∑ y, ay y = 1
 
 section defs
@@ -158,12 +214,15 @@ def uyxSum : ℚ := ∑ x, uyx f cb cu ay x
 def weights (x : Fin n) : ℚ :=
   if uyxSum f cb cu ay = 0 then 0 else uyx f cb cu ay x / uyxSum f cb cu ay
 
-/-- `max_u_yx[x] = min_y P(y|x) / a(y)` -/
-def maxUyx (x : Fin n) : ℚ := vmin (fun y => Pc cb cu ay x y / ay y)
+/-- the values of `Y` whose base rate is outside the zero-tolerance band -/
+def ysupp : List (Fin m) := (List.finRange m).filter fun y => !decide (|ay y| ≤ f.eps)
+
+/-- `max_u_yx[x]`: the least `P(y|x) / a(y)` over the values with `|a(y)| > ε` (1 when there is none) -/
+def maxUyx (x : Fin n) : ℚ := minL ((ysupp f ay).map fun y => Pc cb cu ay x y / ay y) 1
 
 def weightedU (x : Fin n) : ℚ :=
-  if |maxUyx cb cu ay x| ≤ f.eps then 0
-  else weights f cb cu ay x * uyx f cb cu ay x / maxUyx cb cu ay x
+  if |maxUyx f cb cu ay x| ≤ f.eps then 0
+  else weights f cb cu ay x * uyx f cb cu ay x / maxUyx f cb cu ay x
 
 /-- weighted proportional uncertainty of the conditionals -/
 def wprop : ℚ := ∑ x, weightedU f cb cu ay x
@@ -183,7 +242,7 @@ end defs
 variable {cb : Fin n → Fin m → ℚ} {cu : Fin n → ℚ} {ax : Fin n → ℚ} {ay : Fin m → ℚ}
 
 theorem InvHyp.wfc (h : InvHyp cb cu ax ay) (x : Fin n) : WF (cb x) (cu x) ay :=
-  ⟨h.hcb x, h.hcu x, h.hcs x, fun y => le_of_lt (h.hay0 y), h.hay⟩
+  ⟨h.hcb x, h.hcu x, h.hcs x, h.hay0, h.hay⟩
 
 theorem InvHyp.npos (h : InvHyp cb cu ax ay) : 0 < n := by
   rcases Nat.eq_zero_or_pos n with h0 | hpos
@@ -202,7 +261,7 @@ theorem InvHyp.mpos (h : InvHyp cb cu ax ay) : 0 < m := by
 /-! ### algebra -/
 
 theorem Pc_nonneg (h : InvHyp cb cu ax ay) (x : Fin n) (y : Fin m) : 0 ≤ Pc cb cu ay x y :=
-  add_nonneg (h.hcb x y) (mul_nonneg (le_of_lt (h.hay0 y)) (h.hcu x))
+  add_nonneg (h.hcb x y) (mul_nonneg (h.hay0 y) (h.hcu x))
 
 theorem sum_Pc (h : InvHyp cb cu ax ay) (x : Fin n) : ∑ y, Pc cb cu ay x y = 1 :=
   sum_proj (h.wfc x)
@@ -293,47 +352,82 @@ theorem irrel_le_one (h : InvHyp cb cu ax ay) (y : Fin m) : irrel cb cu ay y ≤
   rw [e2]
   linarith
 
-/-- `min_y P(y|x)/a(y) ≤ 1`, because both `P(·|x)` and `a` sum to one -/
-theorem maxUyx_le_one (h : InvHyp cb cu ax ay) (x : Fin n) : maxUyx cb cu ay x ≤ 1 := by
-  have hs := (vmin_spec h.mpos (fun y => Pc cb cu ay x y / ay y)).1
-  have h1 : ∑ y, maxUyx cb cu ay x * ay y ≤ ∑ y, Pc cb cu ay x y := by
+theorem mem_ysupp (y : Fin m) : y ∈ ysupp f ay ↔ ¬ |ay y| ≤ f.eps := by
+  unfold ysupp
+  simp
+
+/-- `maxUyx x` is the least `P(y|x)/a(y)` over the values of `Y` outside the band, 1 if there is none -/
+theorem maxUyx_spec (x : Fin n) :
+    (∀ y, ¬ |ay y| ≤ f.eps → maxUyx f cb cu ay x ≤ Pc cb cu ay x y / ay y) ∧
+    (((∀ y, |ay y| ≤ f.eps) ∧ maxUyx f cb cu ay x = 1) ∨
+      ∃ y, ¬ |ay y| ≤ f.eps ∧ maxUyx f cb cu ay x = Pc cb cu ay x y / ay y) := by
+  unfold maxUyx
+  rcases minL_spec ((ysupp f ay).map fun y => Pc cb cu ay x y / ay y) 1 with ⟨he, hv⟩ | ⟨hm, hl⟩
+  · have hall : ∀ y, |ay y| ≤ f.eps := by
+      intro y
+      by_contra hy
+      have : y ∈ ysupp f ay := (mem_ysupp y).mpr hy
+      rw [List.map_eq_nil_iff] at he
+      rw [he] at this
+      simp at this
+    exact ⟨fun y hy => absurd (hall y) hy, Or.inl ⟨hall, hv⟩⟩
+  · constructor
+    · intro y hy
+      exact hl _ (List.mem_map.mpr ⟨y, (mem_ysupp y).mpr hy, rfl⟩)
+    · right
+      obtain ⟨y, hy, e⟩ := List.mem_map.mp hm
+      exact ⟨y, (mem_ysupp y).mp hy, e.symm⟩
+
+theorem maxUyx_nonneg (h : InvHyp cb cu ax ay) (x : Fin n) : 0 ≤ maxUyx f cb cu ay x := by
+  rcases (maxUyx_spec (f := f) (cb := cb) (cu := cu) (ay := ay) x).2 with ⟨_, e⟩ | ⟨y, _, e⟩
+  · rw [e]; exact zero_le_one
+  · rw [e]; exact div_nonneg (Pc_nonneg h x y) (h.hay0 y)
+
+/-- the model's `max_uncertainty` of the conditional never exceeds `max_u_yx` (both skip the same values
+    of `Y`; `max_uncertainty` additionally starts from 1) -/
+theorem uyx_le_maxUyx (x : Fin n) : uyx f cb cu ay x ≤ maxUyx f cb cu ay x := by
+  obtain ⟨s1, s2, _⟩ := foldMin_spec (cand f (cb x) ay (cu x)) 1
+  rcases (maxUyx_spec (f := f) (cb := cb) (cu := cu) (ay := ay) x).2 with ⟨_, e⟩ | ⟨y, hy, e⟩
+  · rw [e]; exact s1
+  · rw [e]
+    have := s2 y
+    unfold cand at this
+    rw [if_neg hy] at this
+    exact this
+
+/-- `u_yx[x] = min(1, max_u_yx[x])` -/
+theorem uyx_eq_min (x : Fin n) : uyx f cb cu ay x = min 1 (maxUyx f cb cu ay x) := by
+  apply le_antisymm
+  · exact le_min (uhat_le_one _ _ _) (uyx_le_maxUyx x)
+  · rcases (foldMin_spec (cand f (cb x) ay (cu x)) 1).2.2 with e | ⟨y, e⟩
+    · show _ ≤ foldMin (cand f (cb x) ay (cu x)) 1
+      rw [e]; exact min_le_left _ _
+    · show _ ≤ foldMin (cand f (cb x) ay (cu x)) 1
+      rw [e]
+      unfold cand
+      by_cases hy : |ay y| ≤ f.eps
+      · rw [if_pos hy]; exact min_le_left _ _
+      · rw [if_neg hy]
+        exact le_trans (min_le_right _ _) ((maxUyx_spec x).1 y hy)
+
+/-- with every `a(y)` above the band, `min_y P(y|x)/a(y) ≤ 1`, because both `P(·|x)` and `a` sum to one -/
+theorem maxUyx_le_one (h : InvHyp cb cu ax ay) (hay : ∀ y, f.eps < ay y) (x : Fin n) :
+    maxUyx f cb cu ay x ≤ 1 := by
+  have hs : ∀ y, maxUyx f cb cu ay x ≤ Pc cb cu ay x y / ay y := fun y =>
+    (maxUyx_spec x).1 y (by
+      rw [abs_of_pos (lt_trans (XQ.eps_pos f) (hay y))]; exact not_le.mpr (hay y))
+  have h1 : ∑ y, maxUyx f cb cu ay x * ay y ≤ ∑ y, Pc cb cu ay x y := by
     apply Finset.sum_le_sum
     intro y _
     have := hs y
-    rw [le_div_iff₀ (h.hay0 y)] at this
+    rw [le_div_iff₀ (lt_trans (XQ.eps_pos f) (hay y))] at this
     exact this
   rw [← Finset.mul_sum, h.hay, mul_one, sum_Pc h] at h1
   exact h1
 
-theorem maxUyx_nonneg (h : InvHyp cb cu ax ay) (x : Fin n) : 0 ≤ maxUyx cb cu ay x := by
-  obtain ⟨y, e⟩ := (vmin_spec h.mpos (fun y => Pc cb cu ay x y / ay y)).2
-  unfold maxUyx
-  rw [e]
-  exact div_nonneg (Pc_nonneg h x y) (le_of_lt (h.hay0 y))
-
-/-- with every `a(y)` above the guard band, `max_uncertainty` of the conditional is `min_y P(y|x)/a(y)` -/
 theorem uyx_eq_maxUyx (h : InvHyp cb cu ax ay) (hay : ∀ y, f.eps < ay y) (x : Fin n) :
-    uyx f cb cu ay x = maxUyx cb cu ay x := by
-  have hc : ∀ y, cand f (cb x) ay (cu x) y = Pc cb cu ay x y / ay y := by
-    intro y
-    unfold cand
-    rw [if_neg (by rw [abs_of_pos (h.hay0 y)]; exact not_le.mpr (hay y))]
-    rfl
-  obtain ⟨s1, s2, s3⟩ := foldMin_spec (cand f (cb x) ay (cu x)) 1
-  unfold uyx Props.C09.uhat
-  apply vmin_unique h.mpos
-  · intro y; rw [← hc y]; exact s2 y
-  · rcases s3 with e | ⟨y, e⟩
-    · -- the fold stayed at its start value 1: then min_y P/a = 1 as well
-      obtain ⟨y, ey⟩ := (vmin_spec h.mpos (fun y => Pc cb cu ay x y / ay y)).2
-      refine ⟨y, ?_⟩
-      have h1 := maxUyx_le_one h x
-      unfold maxUyx at h1
-      have h2 := s2 y
-      rw [hc y, e] at h2
-      rw [e]; rw [ey] at h1
-      exact le_antisymm h2 h1
-    · exact ⟨y, by rw [e, hc y]⟩
+    uyx f cb cu ay x = maxUyx f cb cu ay x := by
+  rw [uyx_eq_min, min_eq_right (maxUyx_le_one h hay x)]
 
 theorem uyx_nonneg (h : InvHyp cb cu ax ay) (x : Fin n) : 0 ≤ uyx f cb cu ay x :=
   le_trans (h.wfc x).hu (C09_max_u_ge (h.wfc x))
@@ -351,58 +445,62 @@ theorem sum_weights_le_one : ∑ x, weights f cb cu ay x ≤ 1 := by
   · simp only [if_neg hz, ← Finset.sum_div]
     exact le_of_eq (div_self hz)
 
-theorem weightedU_bounds (h : InvHyp cb cu ax ay) (hay : ∀ y, f.eps < ay y) (x : Fin n) :
+theorem weightedU_bounds (h : InvHyp cb cu ax ay) (x : Fin n) :
     0 ≤ weightedU f cb cu ay x ∧ weightedU f cb cu ay x ≤ weights f cb cu ay x := by
   unfold weightedU
   split
   · exact ⟨le_refl _, weights_nonneg h x⟩
   · rename_i hne
-    have hne0 : maxUyx cb cu ay x ≠ 0 := by
-      intro h0; apply hne; rw [h0]; simpa using le_of_lt (XQ.eps_pos f)
-    rw [uyx_eq_maxUyx h hay x, mul_div_assoc, div_self hne0, mul_one]
-    exact ⟨weights_nonneg h x, le_refl _⟩
+    have hM : 0 < maxUyx f cb cu ay x := by
+      rcases lt_or_eq_of_le (maxUyx_nonneg (f := f) h x) with hlt | heq
+      · exact hlt
+      · exfalso; apply hne; rw [← heq]; simpa using le_of_lt (XQ.eps_pos f)
+    constructor
+    · exact div_nonneg (mul_nonneg (weights_nonneg h x) (uyx_nonneg h x)) (le_of_lt hM)
+    · rw [div_le_iff₀ hM]
+      exact mul_le_mul_of_nonneg_left (uyx_le_maxUyx x) (weights_nonneg h x)
 
-theorem wprop_nonneg (h : InvHyp cb cu ax ay) (hay : ∀ y, f.eps < ay y) :
+theorem wprop_nonneg (h : InvHyp cb cu ax ay) :
     0 ≤ wprop f cb cu ay :=
-  Finset.sum_nonneg fun x _ => (weightedU_bounds h hay x).1
+  Finset.sum_nonneg fun x _ => (weightedU_bounds h x).1
 
-theorem wprop_le_one (h : InvHyp cb cu ax ay) (hay : ∀ y, f.eps < ay y) :
+theorem wprop_le_one (h : InvHyp cb cu ax ay) :
     wprop f cb cu ay ≤ 1 :=
-  le_trans (Finset.sum_le_sum fun x _ => (weightedU_bounds h hay x).2) sum_weights_le_one
+  le_trans (Finset.sum_le_sum fun x _ => (weightedU_bounds h x).2) sum_weights_le_one
 
 theorem phi_eq (y : Fin m) :
     phi f cb cu ay y = 1 - (1 - wprop f cb cu ay) * (1 - irrel cb cu ay y) := by
   unfold phi; ring
 
-theorem phi_nonneg (h : InvHyp cb cu ax ay) (hay : ∀ y, f.eps < ay y) (y : Fin m) :
+theorem phi_nonneg (h : InvHyp cb cu ax ay) (y : Fin m) :
     0 ≤ phi f cb cu ay y := by
   unfold phi
-  nlinarith [wprop_nonneg h hay, wprop_le_one h hay, irrel_nonneg h y, irrel_le_one h y]
+  nlinarith [wprop_nonneg (f := f) h, wprop_le_one (f := f) h, irrel_nonneg h y, irrel_le_one h y]
 
-theorem phi_le_one (h : InvHyp cb cu ax ay) (hay : ∀ y, f.eps < ay y) (y : Fin m) :
+theorem phi_le_one (h : InvHyp cb cu ax ay) (y : Fin m) :
     phi f cb cu ay y ≤ 1 := by
   rw [phi_eq]
-  nlinarith [wprop_nonneg h hay, wprop_le_one h hay, irrel_nonneg h y, irrel_le_one h y,
-    mul_nonneg (sub_nonneg.mpr (wprop_le_one h hay)) (sub_nonneg.mpr (irrel_le_one h y))]
+  nlinarith [wprop_nonneg (f := f) h, wprop_le_one (f := f) h, irrel_nonneg h y, irrel_le_one h y,
+    mul_nonneg (sub_nonneg.mpr (wprop_le_one (f := f) h)) (sub_nonneg.mpr (irrel_le_one h y))]
 
-theorem uI_nonneg (h : InvHyp cb cu ax ay) (hay : ∀ y, f.eps < ay y) (y : Fin m) :
+theorem uI_nonneg (h : InvHyp cb cu ax ay) (y : Fin m) :
     0 ≤ uI f cb cu ax ay y :=
-  mul_nonneg (maxUxy_nonneg h y) (phi_nonneg h hay y)
+  mul_nonneg (maxUxy_nonneg h y) (phi_nonneg h y)
 
-theorem uI_le_maxUxy (h : InvHyp cb cu ax ay) (hay : ∀ y, f.eps < ay y) (y : Fin m) :
+theorem uI_le_maxUxy (h : InvHyp cb cu ax ay) (y : Fin m) :
     uI f cb cu ax ay y ≤ maxUxy f cb cu ax ay y := by
   unfold uI
-  have := mul_le_mul_of_nonneg_left (phi_le_one h hay y) (maxUxy_nonneg (f := f) h y)
+  have := mul_le_mul_of_nonneg_left (phi_le_one (f := f) h y) (maxUxy_nonneg (f := f) h y)
   linarith
 
-theorem uI_le_one (h : InvHyp cb cu ax ay) (hay : ∀ y, f.eps < ay y) (y : Fin m) :
+theorem uI_le_one (h : InvHyp cb cu ax ay) (y : Fin m) :
     uI f cb cu ax ay y ≤ 1 :=
-  le_trans (uI_le_maxUxy h hay y) (maxUxy_le_one h y)
+  le_trans (uI_le_maxUxy h y) (maxUxy_le_one h y)
 
-theorem bI_nonneg (h : InvHyp cb cu ax ay) (hay : ∀ y, f.eps < ay y) (y : Fin m) (x : Fin n) :
+theorem bI_nonneg (h : InvHyp cb cu ax ay) (y : Fin m) (x : Fin n) :
     0 ≤ bI f cb cu ax ay y x := by
   unfold bI post
-  have h1 := le_trans (uI_le_maxUxy h hay y) ((maxUxy_spec h y).1 x)
+  have h1 := le_trans (uI_le_maxUxy (f := f) h y) ((maxUxy_spec h y).1 x)
   have := mul_le_mul_of_nonneg_right h1 (le_of_lt (h.hax0 x))
   linarith
 
@@ -462,14 +560,26 @@ theorem weights_lift :
     show liftT _ = _
     congr 1; funext x; unfold weights; rw [if_neg hz]; rfl
 
-/-- (v) `max_u_yx` (every `a(y)` is non-zero, so every entry of the inner reduction is finite) -/
-theorem maxUyx_lift (h : InvHyp cb cu ax ay) :
-    (Vector.ofFn fun x : Fin n => Tab.reduceMin (Vector.ofFn fun y : Fin m =>
-        (XQ.fin (Pc cb cu ay x y) : XQ f) / XQ.fin (ay y)))
-      = liftT (maxUyx cb cu ay) := by
-  have hd : ∀ x y, (XQ.fin (Pc cb cu ay x y) : XQ f) / XQ.fin (ay y)
-      = XQ.fin (Pc cb cu ay x y / ay y) := fun x y => XQ.div_fin _ _ (ne_of_gt (h.hay0 y))
-  simp only [hd, reduceMin_ofFn_fin h.mpos]
+/-- (v) `max_u_yx` (values of `Y` whose base rate passes `is_zero` are filtered out, so every remaining
+    division has a non-zero denominator; `unwrap_or(1)` when nothing remains) -/
+theorem maxUyx_lift :
+    (Vector.ofFn fun x : Fin n => Tab.reduceL Scalar.min
+        (((List.finRange m).filter fun y => !Scalar.isZero (XQ.fin (ay y) : XQ f)).map fun y =>
+          (XQ.fin (Pc cb cu ay x y) : XQ f) / XQ.fin (ay y)) Scalar.one)
+      = liftT (maxUyx f cb cu ay) := by
+  have hl : ∀ x : Fin n,
+      (((List.finRange m).filter fun y => !Scalar.isZero (XQ.fin (ay y) : XQ f)).map fun y =>
+          (XQ.fin (Pc cb cu ay x y) : XQ f) / XQ.fin (ay y))
+        = ((ysupp f ay).map fun y => Pc cb cu ay x y / ay y).map (XQ.fin (f := f)) := by
+    intro x
+    simp only [XQ.isZero_fin, List.map_map]
+    apply List.map_congr_left
+    intro y hy
+    have hy' : ¬ |ay y| ≤ f.eps := (mem_ysupp y).mp hy
+    have hne : ay y ≠ 0 := by
+      intro h0; apply hy'; rw [h0]; simpa using le_of_lt (XQ.eps_pos f)
+    simp [XQ.div_fin _ _ hne]
+  simp only [hl, XQ.one_def, reduceL_min_fin]
   rfl
 
 /-- (vi) one entry of `weighted_u_yx` -/
@@ -491,7 +601,7 @@ theorem inverse_lift (h : InvHyp cb cu ax ay) :
   have hm := h.mpos
   unfold inverse
   simp only [uyx_lift h, pyx_get h, liftT_getElem]
-  simp only [temp_lift h, weights_lift, maxUyx_lift h]
+  simp only [temp_lift h, weights_lift, maxUyx_lift]
   simp only [Fin.getElem_fin, Vector.getElem_ofFn, liftT_getElem', Fin.eta]
   simp only [wU_entry]
   simp only [XQ.mul_fin, reduceMin_vmin hn, reduceMax_ofFn_fin hn,
@@ -567,23 +677,23 @@ theorem bI_irrelevant (h : InvHyp cb cu ax ay) (y : Fin m)
 
 /-- the inverted table together with a well-formed opinion on `Y` satisfies C04's hypotheses (with the
     roles of the two domains exchanged) -/
-theorem toC04 (h : InvHyp cb cu ax ay) (hay : ∀ y, f.eps < ay y) {by_ : Fin m → ℚ} {uy : ℚ}
+theorem toC04 (h : InvHyp cb cu ax ay) {by_ : Fin m → ℚ} {uy : ℚ}
     (hw : WF by_ uy ay) :
     SLV.C04.Hyp by_ ay uy (bI f cb cu ax ay) (uI f cb cu ax ay) ax :=
-  ⟨hw.hb, hw.hu, hw.hs, hw.ha0, hw.ha, bI_nonneg h hay, uI_nonneg h hay, sum_bI h,
+  ⟨hw.hb, hw.hu, hw.hs, hw.ha0, hw.ha, bI_nonneg h, uI_nonneg h, sum_bI h,
     fun x => le_of_lt (h.hax0 x), h.hax⟩
 
 /-- with every `a(y)` above the guard band and every `min_y P(y|x)/a(y)` above it too, the weighted
     proportional uncertainty is 1 whatever the uncertainties of the conditionals are -/
 theorem wprop_eq_one (h : InvHyp cb cu ax ay) (hay : ∀ y, f.eps < ay y)
-    (hall : ∀ x, f.eps < maxUyx cb cu ay x) : wprop f cb cu ay = 1 := by
+    (hall : ∀ x, f.eps < maxUyx f cb cu ay x) : wprop f cb cu ay = 1 := by
   have hpos : ∀ x, 0 < uyx f cb cu ay x := fun x => by
     rw [uyx_eq_maxUyx h hay x]; exact lt_trans (XQ.eps_pos f) (hall x)
   have hS : 0 < uyxSum f cb cu ay :=
     Finset.sum_pos (fun x _ => hpos x) ⟨⟨0, h.npos⟩, Finset.mem_univ _⟩
   have hw : ∀ x, weightedU f cb cu ay x = uyx f cb cu ay x / uyxSum f cb cu ay := by
     intro x
-    have hM : 0 < maxUyx cb cu ay x := lt_trans (XQ.eps_pos f) (hall x)
+    have hM : 0 < maxUyx f cb cu ay x := lt_trans (XQ.eps_pos f) (hall x)
     unfold weightedU weights
     rw [if_neg (by rw [abs_of_pos hM]; exact not_le.mpr (hall x)), if_neg (ne_of_gt hS),
       uyx_eq_maxUyx h hay x, mul_div_assoc, div_self (ne_of_gt hM), mul_one]
@@ -592,41 +702,17 @@ theorem wprop_eq_one (h : InvHyp cb cu ax ay) (hay : ∀ y, f.eps < ay y)
   exact div_self (ne_of_gt hS)
 
 /-- … and 0 when every conditional has `min_y P(y|x)/a(y)` within ε of zero -/
-theorem wprop_eq_zero (hall : ∀ x, |maxUyx cb cu ay x| ≤ f.eps) : wprop f cb cu ay = 0 := by
+theorem wprop_eq_zero (hall : ∀ x, |maxUyx f cb cu ay x| ≤ f.eps) : wprop f cb cu ay = 0 := by
   unfold wprop weightedU
   simp [hall]
 
 theorem eps_lt_quarter (f : Fmt) : f.eps < 1 / 4 := by
   cases f <;> norm_num [Fmt.eps, Fmt.mant]
 
-/-! ### two-valued domains (used by the witness below) -/
-
-theorem vmin_two (g : Fin 2 → ℚ) : vmin g = min (g 0) (g 1) := by
-  symm
-  apply vmin_unique (by norm_num)
-  · intro i; fin_cases i
-    · exact min_le_left _ _
-    · exact min_le_right _ _
-  · rcases min_choice (g 0) (g 1) with e | e
-    · exact ⟨0, e⟩
-    · exact ⟨1, e⟩
-
-theorem vmax_two (g : Fin 2 → ℚ) : vmax g = max (g 0) (g 1) := by
-  symm
-  apply vmax_unique (by norm_num)
-  · intro i; fin_cases i
-    · exact le_max_left _ _
-    · exact le_max_right _ _
-  · rcases max_choice (g 0) (g 1) with e | e
-    · exact ⟨0, e⟩
-    · exact ⟨1, e⟩
-
-theorem foldMin_two (t : Fin 2 → ℚ) (c : ℚ) : foldMin t c = min (min c (t 0)) (t 1) := by
-  simp [foldMin, List.finRange_succ]
-
 end SLV.C05
 
-/-! ### witness: below the guard band (`0 < ay y ≤ ε`) the inverted opinion is not well-formed -/
+/-! ### witness data: a base rate on `Y` inside the guard band (`0 < ay y₀ = 2⁻²⁴ ≤ ε` at `f32`); the model before
+    fix e624e49 returned a non-well-formed inverted opinion here (SLV/Props/PinnedC05.lean) -/
 
 namespace SLV.C05.Witness
 open SLV Scalar SLV.Props.C09 SLV.C05
@@ -639,97 +725,5 @@ def ay : Fin 2 → ℚ := ![1/16777216, 16777215/16777216]
 
 theorem hyp : InvHyp cb cu ax ay := by
   constructor <;> simp [cb, cu, ax, ay, Fin.sum_univ_two, Fin.forall_fin_succ] <;> norm_num
-
-theorem eps32 : Fmt.eps .f32 = 1 / 8388608 := by norm_num [Fmt.eps, Fmt.mant]
-
-theorem P00 : Pc cb cu ay 0 0 = 1 / 33554432 := by simp [Pc, cb, cu, ay]; norm_num
-theorem P01 : Pc cb cu ay 0 1 = 33554431 / 33554432 := by simp [Pc, cb, cu, ay]; norm_num
-theorem P10 : Pc cb cu ay 1 0 = 3 / 4 := by simp [Pc, cb, cu, ay]
-theorem P11 : Pc cb cu ay 1 1 = 1 / 4 := by simp [Pc, cb, cu, ay]
-
-theorem uyx0 : uyx .f32 cb cu ay 0 = 1 := by
-  unfold uyx Props.C09.uhat
-  rw [foldMin_two]
-  have c0 : cand .f32 (cb 0) ay (cu 0) 0 = 1 := by
-    unfold cand; rw [if_pos]; rw [eps32]; simp [ay]; norm_num [abs_of_pos]
-  have c1 : cand .f32 (cb 0) ay (cu 0) 1 = (33554431 / 33554432) / (16777215/16777216) := by
-    unfold cand; rw [if_neg]
-    · rw [← P01]; simp [Pc, ay]
-    · rw [eps32]; simp [ay]; norm_num [abs_of_pos]
-  rw [c0, c1]; norm_num
-
-
-theorem uyx1 : uyx .f32 cb cu ay 1 = 4194304 / 16777215 := by
-  unfold uyx Props.C09.uhat
-  rw [foldMin_two]
-  have c0 : cand .f32 (cb 1) ay (cu 1) 0 = 1 := by
-    unfold cand; rw [if_pos]; rw [eps32]; simp [ay]; norm_num [abs_of_pos]
-  have c1 : cand .f32 (cb 1) ay (cu 1) 1 = (1 / 4) / (16777215/16777216) := by
-    unfold cand; rw [if_neg]
-    · rw [← P11]; simp [Pc, ay]
-    · rw [eps32]; simp [ay]; norm_num [abs_of_pos]
-  rw [c0, c1]; norm_num
-
-theorem maxUyx0 : maxUyx cb cu ay 0 = 1 / 2 := by
-  unfold maxUyx
-  rw [vmin_two]
-  simp only [P00, P01]
-  simp [ay]; norm_num
-
-theorem maxUyx1 : maxUyx cb cu ay 1 = 4194304 / 16777215 := by
-  unfold maxUyx
-  rw [vmin_two]
-  simp only [P10, P11]
-  simp [ay]; norm_num
-
-/-- the weighted proportional uncertainty exceeds one -/
-theorem wprop_val : wprop .f32 cb cu ay = 37748734 / 20971519 := by
-  unfold wprop weightedU weights uyxSum
-  rw [Fin.sum_univ_two, Fin.sum_univ_two, uyx0, uyx1, maxUyx0, maxUyx1, eps32]
-  norm_num [abs_of_pos]
-
-theorem not_zcol1 : ¬ zcol .f32 cb cu ay 1 := by
-  intro hz
-  have := hz 1
-  rw [P11, eps32] at this
-  norm_num [abs_of_pos] at this
-
-theorem irrel1 : irrel cb cu ay 1 = 8388609 / 33554432 := by
-  unfold irrel
-  rw [vmax_two, vmin_two]
-  simp only [P01, P11]
-  norm_num
-
-theorem temp10 : temp .f32 cb cu ax ay 1 0 = 67108862 / 41943039 := by
-  unfold temp
-  rw [if_neg not_zcol1]
-  unfold qy
-  rw [Fin.sum_univ_two, P01, P11]
-  simp [ax]; norm_num
-
-theorem temp11 : temp .f32 cb cu ax ay 1 1 = 16777216 / 41943039 := by
-  unfold temp
-  rw [if_neg not_zcol1]
-  unfold qy
-  rw [Fin.sum_univ_two, P01, P11]
-  simp [ax]; norm_num
-
-theorem maxUxy1 : maxUxy .f32 cb cu ax ay 1 = 16777216 / 41943039 := by
-  unfold maxUxy
-  rw [vmin_two, temp10, temp11]
-  norm_num
-
-/-- the scaling factor exceeds one … -/
-theorem phi1_gt : 1 < phi .f32 cb cu ay 1 := by
-  unfold phi
-  rw [wprop_val, irrel1]
-  norm_num
-
-/-- … so the uncertainty exceeds the largest one compatible with the projection and a belief mass
-    is negative (about -0.12) -/
-theorem bI11_neg : bI .f32 cb cu ax ay 1 1 < -(1 / 10) := by
-  unfold bI post uI phi
-  rw [temp11, maxUxy1, wprop_val, irrel1]
-  simp [ax]; norm_num
 
 end SLV.C05.Witness
